@@ -317,7 +317,9 @@ func (self Value) getByPath(pathes ...Path) (Value, []int) {
 
 	if !isRoot {
 		if self.t == proto.LIST || self.t == proto.MAP {
-			p.ConsumeTag()
+			if _, _, _, err := p.ConsumeTag(); err != nil {
+				return errValue(meta.ErrRead, "", err), address
+			}
 		}
 	}
 
@@ -777,7 +779,10 @@ func (self *Value) findDeleteChild(path Path) (Node, int) {
 				}
 
 				// value
-				_, valueWire, _, _ := it.p.ConsumeTag()
+				_, valueWire, _, err := it.p.ConsumeTag()
+				if err != nil {
+					return errNode(meta.ErrRead, "", err), -1
+				}
 				if err := it.p.Skip(valueWire, false); err != nil {
 					return errNode(meta.ErrRead, "", err), -1
 				}
@@ -811,7 +816,10 @@ func (self *Value) findDeleteChild(path Path) (Node, int) {
 				}
 
 				//value
-				_, valueWire, _, _ := it.p.ConsumeTag()
+				_, valueWire, _, err := it.p.ConsumeTag()
+				if err != nil {
+					return errNode(meta.ErrRead, "", err), -1
+				}
 				if err := it.p.Skip(valueWire, false); err != nil {
 					return errNode(meta.ErrRead, "", err), -1
 				}
@@ -1096,7 +1104,9 @@ func (self *Value) SetMany(pathes []PathNode, opts *Options, root *Value, addres
 				sp = rt.AddPtr(self.v, uintptr(self.l))
 			}
 			ps.a[i].Node = errNotFoundLast(sp, self.t)
-			ps.a[i].Node.setNotFound(a.Path, &ps.b[i].Node, self.Desc)
+			if err = ps.a[i].Node.setNotFound(a.Path, &ps.b[i].Node, self.Desc); err != nil {
+				goto ret
+			}
 			if self.t == proto.LIST || self.t == proto.MAP {
 				self.size += 1
 			}
